@@ -128,6 +128,7 @@ type DischargeOpts struct {
 	TimeoutS int
 	Race     bool
 	Workers  int
+	NoRetry  bool
 }
 
 // DischargeAll solves every obligation and cover in parallel.
@@ -167,7 +168,7 @@ func DischargeAll(obls []*Obligation, covers []*Cover, o DischargeOpts) (res []*
 				return
 			}
 			st, solver, t, all, dis := discharge(j.r.File, o.TimeoutS, o.Race)
-			if (st == "timeout" || st == "unknown") && o.Race && j.r.Cover == nil {
+			if (st == "timeout" || st == "unknown") && o.Race && j.r.Cover == nil && !o.NoRetry {
 				// one retry with a longer limit before reporting
 				st, solver, t, all, dis = discharge(j.r.File, 3*o.TimeoutS, true)
 			}
